@@ -427,3 +427,27 @@ def undeclared_requests(cfg, hyper, rec, rtol=1e-12):
         if not any(close(loc, l, rtol) and close(scale, s, rtol) for _, l, s in pairs):
             bad.append((i, loc, scale))
     return bad
+
+
+def own_parameters(cfg, hyper):
+    """the parameters a lens HAS (those its draw realises), from the configuration alone — the Python statement of the
+    model's `realisedKeys` (Proofs/LensKeys: lensKeys ++ anisoKeys): lambda_mst and gamma_ppn always; gamma_in / log_m2l
+    when sampled; gamma_pl when the lens has its own slope index or the slope is sampled globally; a_ani / beta_inf
+    according to the anisotropy model when sampled, else as supplied"""
+    keys = ["lambda_mst", "gamma_ppn"]
+    if cfg.get("gamma_in_sampling", False):
+        keys.append("gamma_in")
+    if cfg.get("log_m2l_sampling", False):
+        keys.append("log_m2l")
+    if cfg.get("gamma_pl_index", None) is not None or cfg.get("gamma_pl_global_sampling", False) is True:
+        keys.append("gamma_pl")
+    kk = (hyper.get("kwargs_kin") or {})
+    if cfg.get("anisotropy_sampling", False):
+        model = cfg.get("anisotropy_model", "NONE")
+        if model in ("OM", "const", "GOM"):
+            keys.append("a_ani")
+        if model == "GOM":
+            keys.append("beta_inf")
+    else:
+        keys += [k for k in ("a_ani", "beta_inf") if kk.get(k) is not None]
+    return keys
